@@ -1,4 +1,5 @@
-(* C33 - Session.close() under the invariant (guard g6: no object is in the deleted state). *)
+(* C33 - Session.close() under the invariant (guard g6: every object in the deleted state is referred to by
+   an open transaction). *)
 From Coq Require Import List ZArith Bool Arith Lia.
 Import ListNotations.
 From SAV.orm Require Import SessTxn SessTxnBase SessTxnSpec SessTxnInv SessTxnOps SessTxnRestore SessTxnRestore2
@@ -100,7 +101,9 @@ Lemma op_close_core : forall st gs r st', Core st gs -> guard st OClose = true -
 Proof.
   intros st gs r st' C Hg H Hr. unfold guard in Hg. cbn in Hg. apply negb_true_iff in Hg.
   cbn [do_op] in H.
-  set (F := fun (x : nat) (o : obj) => if oin o || mem x (snew st) then detach_obj false (o_in o false) else o) in *.
+  set (F := fun (x : nat) (o : obj) =>
+              if oin o || mem x (snew st) || (existsb (fun f => mem x (fdel f)) (stack st) && odelf o && oatt o)
+              then detach_obj false (o_in o false) else o) in *.
   set (st2 := set_sdel (set_snew (map_objs st F) []) []) in *.
   assert (D2 : DbOk' st2 gs).
   { destruct (Core_DbOk' st gs C) as [D Hde]. split.
@@ -113,15 +116,18 @@ Proof.
   pose proof (c_good _ _ C) as G. pose proof (c_j _ _ C) as Jh.
   assert (HA : forall x, oin (objs s3 x) = false).
   { intros x. rewrite a1. unfold F. destruct (oin (objs st x)) eqn:Ei; cbn; auto.
-    destruct (mem x (snew st)); cbn; auto. }
+    destruct (mem x (snew st) || _); cbn; auto. }
   assert (HB : forall x, x < nobj st -> oatt (objs s3 x) = false).
-  { intros x Hx. rewrite a1. unfold F. destruct (oin (objs st x) || mem x (snew st)) eqn:Ec; [reflexivity|].
-    apply orb_false_iff in Ec. destruct Ec as [Ei Em].
+  { intros x Hx. rewrite a1. unfold F.
+    destruct (oin (objs st x) || mem x (snew st) || (existsb (fun f => mem x (fdel f)) (stack st) && odelf (objs st x) && oatt (objs st x))) eqn:Ec;
+      [reflexivity|].
+    apply orb_false_iff in Ec. destruct Ec as [Ec Edl]. apply orb_false_iff in Ec. destruct Ec as [Ei Em].
     destruct (oatt (objs st x)) eqn:Ea; auto. exfalso.
     destruct (okey (objs st x)) as [k|] eqn:Ek.
     - destruct (odelf (objs st x)) eqn:Ed.
-      + assert (X : existsb (fun o => is_deleted_state (objs st o)) (all_objs st) = true).
-        { apply existsb_exists. exists x. split; [apply in_seq; cbn; lia|]. unfold is_deleted_state. rewrite Ek, Ea, Ed. reflexivity. }
+      + rewrite !andb_true_r in Edl.
+        assert (X : existsb (fun o => is_deleted_state (objs st o) && negb (existsb (fun f => mem o (fdel f)) (stack st))) (all_objs st) = true).
+        { apply existsb_exists. exists x. split; [apply in_seq; cbn; lia|]. unfold is_deleted_state. rewrite Ek, Ea, Ed, Edl. reflexivity. }
         congruence.
       + rewrite (g_pers _ _ _ _ _ G x k Hx Ek Ea Ed) in Ei. discriminate.
     - assert (X : In x (snew st)) by (apply (g_new _ _ _ _ _ G); auto). apply mem_In in X. congruence. }
@@ -135,13 +141,14 @@ Proof.
     + intros o k Ho _ Ha. rewrite (HB o Ho) in Ha. discriminate.
     + intros o k Hi. rewrite HA in Hi. discriminate.
     + intros o. split; [intros []|]. intros [Ho [_ Ha]]. rewrite (HB o Ho) in Ha. discriminate.
-    + intros o [].
+    + intros o Ho Hk. rewrite a1 in *. unfold F in *.
+      destruct (oin (objs st o) || mem o (snew st) || _); cbn in *; apply (g_newd _ _ _ _ _ G o Ho Hk).
     + intros o [].
     + split; constructor.
     + intros o k Ho _ Ha. rewrite (HB o Ho) in Ha. discriminate.
     + intros o Ho _ Ha. rewrite (HB o Ho) in Ha. discriminate.
   - rewrite a2. intros o Ho. rewrite a1. specialize (Jh o Ho). unfold F.
-    destruct (oin (objs st o) || mem o (snew st)); cbn; exact Jh.
+    destruct (oin (objs st o) || mem o (snew st) || _); cbn; exact Jh.
   - constructor; rewrite ?S3; cbn; auto. split; [rewrite V3; reflexivity|exact I].
   - unfold Chain. rewrite S3. exact I.
   - intros _. exact Hcl.
